@@ -14,6 +14,7 @@ package main
 
 import (
 	"fmt"
+	"io"
 	"net"
 	"os"
 	"runtime"
@@ -102,6 +103,7 @@ type registry struct {
 	h       map[uint32]chan cmd
 	read    map[uint32]int  // bytes the handlers got from their request bodies since the last event
 	corrupt map[uint32]bool // streams whose handler read bytes that are not the ones the client sent
+	rend    []string        // how the handlers' read commands ended: rend(id,full|eof|err), in completion order
 }
 
 // every request body and every response body carries a position dependent pattern, checked by the other side
@@ -128,6 +130,7 @@ func handler(w http.ResponseWriter, r *http.Request) {
 		switch c.kind {
 		case 'r':
 			// io.ReadFull, with every partial read accounted for as soon as it returns
+			var lastErr error
 			for rem := c.n; rem > 0; {
 				n, err := r.Body.Read(buf[:rem])
 				bad := false
@@ -145,9 +148,20 @@ func handler(w http.ResponseWriter, r *http.Request) {
 				myReg.mu.Unlock()
 				rem -= n
 				if err != nil {
+					lastErr = err
 					break
 				}
 			}
+			// the contract of Read: all bytes, or io.EOF after the client's FIN, or the error the stream was closed with
+			kind := "full"
+			if lastErr == io.EOF {
+				kind = "eof"
+			} else if lastErr != nil {
+				kind = "err"
+			}
+			myReg.mu.Lock()
+			myReg.rend = append(myReg.rend, fmt.Sprintf("rend(%d,%s)", id, kind))
+			myReg.mu.Unlock()
 		case 'w':
 			for i := 0; i < c.n; i++ {
 				buf[i] = patOut(id, woff+i)
@@ -176,21 +190,22 @@ func atoi(s string) (uint32, bool) {
 
 // render groups what arrived during one event by stream id (0 = connection), keeps the arrival order inside a
 // group and merges the WINDOW_UPDATEs of a group into one token (their split depends on read sizes only).
-func render(fs []spdy.Frame, reads map[uint32]int) string {
+func render(fs []spdy.Frame, reads map[uint32]int, rends []string) string {
 	type tok struct {
-		id  uint32
-		s   string
-		wu  bool
-		sum uint64
+		id   uint32
+		s    string
+		wu   bool
+		sum  uint64
+		rank int // order inside a stream's group: goaway, ping, rst, reply, data (arrival order), wu, read
 	}
 	var toks []*tok
 	wuOf := map[uint32]*tok{}
 	for _, g := range fs {
 		switch g := g.(type) {
 		case *spdy.PingFrame:
-			toks = append(toks, &tok{id: 0, s: fmt.Sprintf("ping(%d)", g.Id)})
+			toks = append(toks, &tok{id: 0, s: fmt.Sprintf("ping(%d)", g.Id), rank: 1})
 		case *spdy.RstStreamFrame:
-			toks = append(toks, &tok{id: uint32(g.StreamId), s: fmt.Sprintf("rst(%d,%d)", g.StreamId, g.Status)})
+			toks = append(toks, &tok{id: uint32(g.StreamId), s: fmt.Sprintf("rst(%d,%d)", g.StreamId, g.Status), rank: 2})
 		case *spdy.GoAwayFrame:
 			toks = append(toks, &tok{id: 0, s: fmt.Sprintf("goaway(%d,%d)", g.LastGoodStreamId, g.Status)})
 		case *spdy.WindowUpdateFrame:
@@ -198,7 +213,7 @@ func render(fs []spdy.Frame, reads map[uint32]int) string {
 			if t, ok := wuOf[id]; ok {
 				t.sum += uint64(g.DeltaWindowSize)
 			} else {
-				t := &tok{id: id, wu: true, sum: uint64(g.DeltaWindowSize)}
+				t := &tok{id: id, wu: true, sum: uint64(g.DeltaWindowSize), rank: 5}
 				wuOf[id] = t
 				toks = append(toks, t)
 			}
@@ -207,13 +222,13 @@ func render(fs []spdy.Frame, reads map[uint32]int) string {
 			if g.StreamEnded() {
 				fin = 1
 			}
-			toks = append(toks, &tok{id: uint32(g.StreamId), s: fmt.Sprintf("reply(%d,%d)", g.StreamId, fin)})
+			toks = append(toks, &tok{id: uint32(g.StreamId), s: fmt.Sprintf("reply(%d,%d)", g.StreamId, fin), rank: 3})
 		case *spdy.DataFrame:
 			fin := 0
 			if g.StreamEnded() {
 				fin = 1
 			}
-			toks = append(toks, &tok{id: uint32(g.StreamId), s: fmt.Sprintf("data(%d,%d,%d)", g.StreamId, len(g.Data), fin)})
+			toks = append(toks, &tok{id: uint32(g.StreamId), s: fmt.Sprintf("data(%d,%d,%d)", g.StreamId, len(g.Data), fin), rank: 4})
 		default:
 			toks = append(toks, &tok{id: 0, s: fmt.Sprintf("other(%T)", g)})
 		}
@@ -226,10 +241,20 @@ func render(fs []spdy.Frame, reads map[uint32]int) string {
 	sort.Ints(rids)
 	for _, id := range rids {
 		if n := reads[uint32(id)]; n > 0 {
-			toks = append(toks, &tok{id: uint32(id), s: fmt.Sprintf("read(%d,%d)", id, n)})
+			toks = append(toks, &tok{id: uint32(id), s: fmt.Sprintf("read(%d,%d)", id, n), rank: 6})
 		}
 	}
-	sort.SliceStable(toks, func(i, j int) bool { return toks[i].id < toks[j].id })
+	for _, e := range rends {
+		var id uint32
+		fmt.Sscanf(e, "rend(%d,", &id)
+		toks = append(toks, &tok{id: id, s: e, rank: 7})
+	}
+	sort.SliceStable(toks, func(i, j int) bool {
+		if toks[i].id != toks[j].id {
+			return toks[i].id < toks[j].id
+		}
+		return toks[i].rank < toks[j].rank
+	})
 	var out []string
 	for _, t := range toks {
 		if t.wu {
@@ -373,6 +398,7 @@ func execSv(toks []string) string {
 				// S id,fin[,method,cl]  method 0 POST 1 GET 2 HEAD (default: POST, GET with FIN);
 				// cl 0 = no Content-Length, 1 = "abc", 2 = "-5", k+10 = the number k
 				s := &spdy.SynStreamFrame{StreamId: spdy.StreamId(n[0]), Headers: http.Header{}}
+			sent[n[0]] = 0 // a request body starts here (DATA before the SYN_STREAM is refused, not delivered)
 				meth := "POST"
 				if n[1] != 0 {
 					meth = "GET"
@@ -458,6 +484,8 @@ func execSv(toks []string) string {
 		myReg.mu.Lock()
 		reads := myReg.read
 		myReg.read = map[uint32]int{}
+		rends := myReg.rend
+		myReg.rend = nil
 		var bad []string
 		for id := range myReg.corrupt {
 			bad = append(bad, fmt.Sprintf("corrupt(%d)", id))
@@ -471,7 +499,7 @@ func execSv(toks []string) string {
 		cv.corrupt = map[uint32]bool{}
 		cv.mu.Unlock()
 		sort.Strings(bad)
-		out = append(out, render(got, reads))
+		out = append(out, render(got, reads, rends))
 		if len(bad) > 0 {
 			out = append(out, strings.Join(bad, ","))
 			break
